@@ -1,5 +1,7 @@
 import AkVerif.Lemmas.PPrintMain
 import AkVerif.Lemmas.PPrintParse
+import AkVerif.Lemmas.PPrintWidth
+import AkVerif.Lemmas.PPrintKinds
 /-!
 # C11 — pretty-printed JSON-like data reads back as the same data
 
@@ -9,9 +11,10 @@ runs), `text` the plain text of the result, `groupLines` the line iteration. `js
 of the layout numbers `L` (one-line limits, wrap limit, indentation), in particular for
 `PPrint.limits`, the numbers read from the source, and at every offset.
 
-Domain (`WF`): strings and keys without `"`, `\` and control characters; number tokens are the
-text `str()` printed, required to follow the JSON number grammar (`numOk`; true of every finite
-int / float); no hypothesis on shapes, sizes, nesting.
+Domain (`WF`): strings and keys without `"`, `\` and control characters; every int (its text is
+computed by `showInt`, the model of `str(int)`, and read back as the same integer: `int_text`);
+a float is the text `str()` printed, required to follow the JSON number grammar and not to be an
+integer text (true of every finite float); no hypothesis on shapes, sizes, nesting.
 `norm v` = `v` with the entries of every dict in sorted key order (`norm_perm`, `keys_sorted`).
 -/
 namespace C11
@@ -20,6 +23,11 @@ open PPrint
 /-- the keyword tables of the source are three distinct non-empty words each (re-decided by the
 kernel whenever the source changes) -/
 theorem consts_ok : jsonConsts.ok = true ∧ pyConsts.ok = true := by decide
+
+/-- The domain is a test: `wfB` decides `WF`. The driver evaluates it on every request and refuses
+values outside the domain, so every value of the correspondence run satisfies the hypothesis of the
+theorems below. -/
+theorem wf_checked (v : J) : wfB v = true ↔ WF v := wfB_iff v
 
 /-- Nothing is lost, duplicated or reordered, in any layout: the tokens of the printed text are
 exactly the tokens of `norm v` — every element of every container once, in order, one comma
@@ -41,6 +49,19 @@ theorem read_render (L : Limits) (v : J) (off : Nat) (h : WF v) :
     read pyConsts (text (gen pyConsts L v off)) = some (norm v) := by
   obtain ⟨h1, h2⟩ := no_loss L v off h
   simp [PPrint.read, h1, h2, parse_toks]
+
+/-- Ints are inside the model: an int is printed as `showInt n` (decimal digits, `-` for negatives,
+no leading zero — what `str(int)` gives; compared with the real printer in the correspondence), this
+text is a JSON number, and both readers turn it back into the integer `n`. -/
+theorem int_text (L : Limits) (n : Int) (off : Nat) :
+    text (gen jsonConsts L (.int n) off) = showInt n ∧ text (gen pyConsts L (.int n) off) = showInt n ∧
+    numOk (showInt n) = true ∧
+    read jsonConsts (showInt n) = some (.int n) ∧ read pyConsts (showInt n) = some (.int n) := by
+  have h := read_render L (.int n) off (by simp [WF])
+  have e1 : text (gen jsonConsts L (.int n) off) = showInt n := by simp [gen, simpleChunk]
+  have e2 : text (gen pyConsts L (.int n) off) = showInt n := by simp [gen, simpleChunk]
+  rw [e1, e2] at h
+  exact ⟨e1, e2, numOk_showInt n, by simpa [norm] using h.1, by simpa [norm] using h.2⟩
 
 /-- `norm v` is the same value: equal up to the order of the entries of dicts (what Python's `==`
 compares) -/
@@ -80,6 +101,26 @@ theorem sort_then_render (c : Consts) (L : Limits) (kvs : List (List Char × J))
     sortE (genEntries c L kvs off) = (sortE kvs).map (fun kv => (kv.1, gen c L kv.2 off)) := by
   rw [genEntries_eq, sortE_map (fun kv => gen c L kv.2 off)]
 
+/-- Long containers are wrapped: a non-empty list / dict that comes out without a line break is
+the one-line layout and ends left of the one-line limit counted from its offset; everything longer
+is spread over several lines (contrapositive). -/
+theorem one_line_fits (c : Consts) (L : Limits) (off : Nat) :
+    (∀ xs : List J, xs ≠ [] → none ∉ gen c L (.list xs) off →
+      off + (text (gen c L (.list xs) off)).length < L.oneLineList) ∧
+    (∀ kvs : List (List Char × J), kvs ≠ [] → none ∉ gen c L (.dict kvs) off →
+      off + (text (gen c L (.dict kvs) off)).length < L.oneLineDict) :=
+  ⟨fun xs hne h => list_one_line_fits c L xs off hne h,
+   fun kvs hne h => dict_one_line_fits c L kvs off hne h⟩
+
+/-- The colour side: every chunk carries the syntax class of the palette method that made it, and
+the class agrees with the text — a `name` chunk is a quoted key, a `number` chunk is a number text
+(JSON grammar), a `keyword` chunk is one of the three literals of the mode; brackets, separators,
+indentation and strings are `text`. (Colours never take part in `text`, which reads `Chunk.text`
+only.) -/
+theorem chunk_classes (c : Consts) (L : Limits) (v : J) (off : Nat) (h : WF v) :
+    ∀ ch, some ch ∈ gen c L v off → ChunkOk c ch :=
+  gen_chunkOk c L v h off
+
 /-- The reader is a function on texts and reads the canonical tokens of every value back, so two
 values with the same printed text have the same `norm` (the text determines the value). -/
 theorem text_determines_value (L : Limits) (v w : J) (off off' : Nat) (hv : WF v) (hw : WF w)
@@ -100,12 +141,15 @@ def limits0 : Limits := ⟨200, 200, 150, 2⟩
 /-- a dict (unsorted keys) holding a list that must be wrapped, a nested dict and constants -/
 def sample : J :=
   .dict [("zz".toList, .list (List.replicate 8 (.str "abcdefghijklmnopqrstuvwxyz0123".toList))),
-         ("b".toList, .dict [("k".toList, .num "-1.5e+22".toList), ("a".toList, .kw .nul)]),
+         ("b".toList, .dict [("k".toList, .num "-1.5e+22".toList), ("a".toList, .kw .nul),
+                             ("i".toList, .int (-12345678901234567890))]),
          ("a b".toList, .list [.kw .tt, .list [], .dict [], .list [.kw .ff]])]
 
 example : WF sample := by
   simp only [sample, WF, WFEntries, WFList, List.replicate]
   decide
+
+example : wfB sample = true := by decide +kernel
 
 example : DistinctKeys sample := by
   simp only [sample, DistinctKeys, DistinctKeysD, DistinctKeysL, List.replicate]
@@ -120,7 +164,7 @@ example : (read pyConsts (text (gen pyConsts limits sample 0))).map toks = some 
 /-- the exact text the real printer produces for `sample` (copied from a run of the real code):
 keys sorted, the 8 strings wrapped over 2 lines, the nested dict on one line -/
 example : text (gen jsonConsts limits0 sample 0) =
-    "{\n  \"a b\": [\n    true,\n    [],\n    {},\n    [false]\n  ],\n  \"b\": {\"a\": null, \"k\": -1.5e+22},\n  \"zz\": [\n    \"abcdefghijklmnopqrstuvwxyz0123\", \"abcdefghijklmnopqrstuvwxyz0123\", \"abcdefghijklmnopqrstuvwxyz0123\", \"abcdefghijklmnopqrstuvwxyz0123\",\n    \"abcdefghijklmnopqrstuvwxyz0123\", \"abcdefghijklmnopqrstuvwxyz0123\", \"abcdefghijklmnopqrstuvwxyz0123\", \"abcdefghijklmnopqrstuvwxyz0123\"\n  ]\n}".toList := by
+    "{\n  \"a b\": [\n    true,\n    [],\n    {},\n    [false]\n  ],\n  \"b\": {\"a\": null, \"i\": -12345678901234567890, \"k\": -1.5e+22},\n  \"zz\": [\n    \"abcdefghijklmnopqrstuvwxyz0123\", \"abcdefghijklmnopqrstuvwxyz0123\", \"abcdefghijklmnopqrstuvwxyz0123\", \"abcdefghijklmnopqrstuvwxyz0123\",\n    \"abcdefghijklmnopqrstuvwxyz0123\", \"abcdefghijklmnopqrstuvwxyz0123\", \"abcdefghijklmnopqrstuvwxyz0123\", \"abcdefghijklmnopqrstuvwxyz0123\"\n  ]\n}".toList := by
   decide +kernel
 
 example : (groupLines (gen jsonConsts limits0 sample 0)).length = 13 := by decide +kernel
